@@ -284,7 +284,9 @@ def run(tier: str, seed: int, rep: Report, model: Model) -> dict:
     for cls in I.TENSOR_CLASSES:
         for src, members in ABSTRACT.items():
             cd_tasks.append({"cls": cls, "base": f"npt.NDArray[{src}]", "value": None, "scalars": ["other"], "abstract": src, "members": members})
-    cd_tasks = [t for t in cd_tasks if t["cls"] != "BFloat16Tensor"]
+    # (BFloat16Tensor lists torch dtypes only: every numpy array type that names a scalar type contradicts it and must be refused;
+    #  the abstract-type rows say nothing definite about it and are left out)
+    cd_tasks = [t for t in cd_tasks if t["cls"] != "BFloat16Tensor" or "abstract" not in t]
     rep.streams["class_definitions"] = len(cd_tasks)
     w3 = ImplWorker("harness.props.c17")
     try:
